@@ -222,7 +222,8 @@ class Run:
             return False
         self.n_violations += 1
         self.mon["violations_by_mechanism:%s" % mechanism] += 1
-        entry = {"mechanism": mechanism, "case": case, "detail": detail}
+        # the hash seed of this shard's interpreter is part of what reproduces the case
+        entry = {"mechanism": mechanism, "case": case, "detail": detail, "hashseed": os.environ.get("PYTHONHASHSEED", "0"), "optimise": bool(sys.flags.optimize)}
         per_mech = sum(1 for v in self.violations if v["mechanism"] == mechanism)
         if len(self.violations) < MAX_VIOLATIONS_KEPT and per_mech < 6:
             self.violations.append(entry)
